@@ -263,6 +263,10 @@ pub fn op_state(a: &[&str]) -> String {
     }
 }
 
+fn sizes<T: Pod + ZkProofData<U>, U: Pod>() -> String { format!("{}:{}", std::mem::size_of::<T>(), std::mem::size_of::<U>()) }
+fn data_size(i: usize) -> usize { let s: String = with_proof_types!(i, sizes,); s.split(':').next().and_then(|x| x.parse().ok()).unwrap_or(0) }
+fn ctx_size(i: usize) -> usize { let s: String = with_proof_types!(i, sizes,); s.split(':').nth(1).and_then(|x| x.parse().ok()).unwrap_or(0) }
+
 /// constants of the compiled crate, as JSON (cross-checks the translator)
 pub fn consts_json() -> String {
     use num_traits::ToPrimitive;
@@ -282,12 +286,46 @@ pub fn consts_json() -> String {
         let p: Vec<&str> = s.split(':').collect();
         decl.push(format!("[{},{},{}]", p[0], p[1], p[2]));
     }
+    // what the SDK actually puts on the wire (C17): for every builder and every variant the program
+    // address and the discriminator byte of the built instruction; for every proof type the type byte
+    // and the total length of the encoded context-state account
+    let a1 = Address::from([1u8; 32]);
+    let a2 = Address::from([2u8; 32]);
+    let a3 = Address::from([3u8; 32]);
+    let mut enc = vec![];
+    for i in 1..13usize {
+        let v = instruction_by_index(i).unwrap();
+        for with_ctx in [false, true] {
+            let info = if with_ctx { Some(ContextStateInfo { context_state_account: &a1, context_state_authority: &a2 }) } else { None };
+            let ix = v.encode_verify_proof_from_account(info, &a3, 7);
+            enc.push(format!("[\"account:{:?}:{}\",\"{}\",{}]", v, with_ctx as u8, hex(ix.program_id.as_ref()), ix.data[0]));
+            let zeros = vec![0u8; 2048];
+            let s: String = with_proof_types!(i, ix_verify, v, &zeros[..data_size(i)], if with_ctx { Some((a1, a2)) } else { None });
+            // s = "prog=<hex> accts=.. data=<hex>"
+            let prog = s.split_whitespace().next().unwrap_or("").trim_start_matches("prog=").to_string();
+            let d0 = s.rsplit("data=").next().and_then(|h| u8::from_str_radix(h.get(0..2).unwrap_or("zz"), 16).ok()).map(|b| b as i32).unwrap_or(-1);
+            enc.push(format!("[\"inline:{:?}:{}\",\"{}\",{}]", v, with_ctx as u8, prog, d0));
+        }
+    }
+    {
+        let ix = close_context_state(ContextStateInfo { context_state_account: &a1, context_state_authority: &a2 }, &a3);
+        enc.push(format!("[\"close:CloseContextState\",\"{}\",{}]", hex(ix.program_id.as_ref()), ix.data[0]));
+    }
+    let mut st = vec![];
+    for i in 1..13usize {
+        let zeros = vec![0u8; 2048];
+        let h: String = with_proof_types!(i, state_encode, &a1, proof_type_by_index(i).unwrap(), &zeros[..ctx_size(i)]);
+        let b = unhex(&h).unwrap_or_default();
+        st.push(format!("[{},{},{}]", i, b.len(), if b.len() > 32 { b[32] as i32 } else { -1 }));
+    }
     format!(
-        "{{\"instructions\":[{}],\"proof_types\":[{}],\"declared\":[{}],\"meta_size\":{},\"program_id\":\"{}\"}}",
+        "{{\"instructions\":[{}],\"proof_types\":[{}],\"declared\":[{}],\"meta_size\":{},\"program_id\":\"{}\",\"encoded\":[{}],\"encoded_states\":[{}]}}",
         instrs.join(","),
         ptypes.join(","),
         decl.join(","),
         std::mem::size_of::<ProofContextStateMeta>(),
-        hex(solana_zk_sdk::zk_elgamal_proof_program::id().as_ref())
+        hex(solana_zk_sdk::zk_elgamal_proof_program::id().as_ref()),
+        enc.join(","),
+        st.join(",")
     )
 }
